@@ -2,6 +2,7 @@ package main
 
 import (
 	"fmt"
+	"io"
 	"sort"
 	"strings"
 
@@ -48,6 +49,81 @@ func (k xzCase) config() xz.WriterConfig {
 		c.NoCheckSum = true
 	}
 	return c
+}
+
+// life tells how the caller arrives at the configuration value (a function of the case seed):
+// most cases build it as a fresh literal; the others go through what a program that keeps a
+// configuration variable around does - Verify (which fills defaults into the caller's struct)
+// and then set fields, reuse of the variable for a second writer, a copy of an earlier writer's
+// embedded configuration, and a Properties value that the caller changes after NewWriter
+// returned.  The writer must in every case behave as configured at the time of NewWriter.
+func (k xzCase) life() int {
+	switch k.Seed % 10 {
+	case 4:
+		return 4 // Verify, then set the fields
+	case 5:
+		return 5 // variable reused after an earlier writer
+	case 6:
+		return 6 // copy of an earlier writer's WriterConfig
+	case 7:
+		return 7 // Properties changed by the caller after NewWriter
+	}
+	return 0
+}
+
+var lifeNames = map[int]string{0: "literal", 4: "verify-then-set", 5: "variable-reused", 6: "copy-of-writer-config", 7: "properties-changed-after-new"}
+
+// newWriterLife creates the writer of the case along its configuration lifecycle.
+func (k xzCase) newWriterLife(sink io.Writer) (*xz.Writer, error) {
+	final := k.config()
+	set := func(cfg *xz.WriterConfig) {
+		cfg.Properties, cfg.DictCap, cfg.BufSize, cfg.BlockSize = final.Properties, final.DictCap, final.BufSize, final.BlockSize
+		cfg.CheckSum, cfg.NoCheckSum, cfg.Matcher = final.CheckSum, final.NoCheckSum, final.Matcher
+	}
+	base := xz.WriterConfig{DictCap: 4096, Properties: &lzma.Properties{LC: 1, LP: 1, PB: 1}}
+	switch k.life() {
+	case 4:
+		cfg := base
+		if err := cfg.Verify(); err != nil {
+			return nil, err
+		}
+		// a caller sets what it wants to differ and leaves the rest as Verify filled it
+		cfg.Properties, cfg.DictCap, cfg.Matcher = final.Properties, final.DictCap, final.Matcher
+		if final.BufSize != 0 {
+			cfg.BufSize = final.BufSize
+		}
+		if final.BlockSize != 0 {
+			cfg.BlockSize = final.BlockSize
+		}
+		if final.CheckSum != 0 {
+			cfg.CheckSum = final.CheckSum
+		}
+		cfg.NoCheckSum = final.NoCheckSum
+		return cfg.NewWriter(sink)
+	case 5, 6:
+		cfg := base
+		cfg.CheckSum = xz.CRC32
+		w0, err := cfg.NewWriter(io.Discard)
+		if err != nil {
+			return nil, err
+		}
+		w0.Write([]byte("an earlier stream written with the same configuration variable"))
+		w0.Close()
+		if k.life() == 6 {
+			cfg = w0.WriterConfig
+		}
+		set(&cfg)
+		return cfg.NewWriter(sink)
+	case 7:
+		pv := *final.Properties
+		cfg := final
+		cfg.Properties = &pv
+		w, err := cfg.NewWriter(sink)
+		pv = lzma.Properties{LC: (pv.LC + 1) % 3, LP: (pv.LP + 1) % 2, PB: (pv.PB + 2) % 5} // the caller retunes its variable
+		cfg.DictCap, cfg.BlockSize, cfg.CheckSum = 1<<22, 77, xz.SHA256                     // and the struct it passed by value
+		return w, err
+	}
+	return final.NewWriter(sink)
 }
 
 func (k xzCase) checkID() byte {
@@ -120,7 +196,7 @@ func sizeClass(n int) string {
 
 func (k xzCase) desc() map[string]any {
 	return map[string]any{"case_id": k.ID, "lc": k.LC, "lp": k.LP, "pb": k.PB, "dictcap": k.DictCap, "bufsize": k.BufSize,
-		"blocksize": k.BlockSize, "check": k.Check, "matcher": k.Matcher, "family": k.Family, "n": k.N, "partition": k.Part, "data_seed": k.Seed}
+		"blocksize": k.BlockSize, "check": k.Check, "matcher": k.Matcher, "family": k.Family, "n": k.N, "partition": k.Part, "data_seed": k.Seed, "config_lifecycle": lifeNames[k.life()]}
 }
 
 var lclp = [][2]int{{0, 0}, {1, 0}, {2, 0}, {3, 0}, {4, 0}, {0, 1}, {1, 1}, {2, 1}, {3, 1}, {0, 2}, {1, 2}, {2, 2}, {0, 3}, {1, 3}, {0, 4}}
@@ -128,7 +204,7 @@ var dictCaps = []int{4096, 4097, 5000, 8192, 32768, 65535, 65536, 1 << 20}
 var bufSizes = []int{273, 274, 300, 0, 65536}
 var blockSizes = []int64{1, 2, 7, 100, 4096, 65536, 100000, 0}
 var checkKinds = []string{"crc32", "crc64", "sha256", "none", "default"}
-var partKinds = []string{"one", "random", "zerolen", "bytes", "edges"}
+var partKinds = []string{"one", "random", "zerolen", "bytes", "edges", "iocopy"}
 
 // xzCases builds the deterministic case list for a tier.
 func xzCases(seed uint64, label uint64, count int, big bool) []xzCase {
@@ -267,13 +343,31 @@ func runXZWriter(k xzCase) *xzRun {
 	}
 	cfg = k.config()
 	run.Panic = mon.Guard(func() {
-		w, err := cfg.NewWriter(run.Sink)
+		w, err := k.newWriterLife(run.Sink)
 		if err != nil {
 			run.NewErr = err
 			return
 		}
+		if k.Part == "iocopy" {
+			// the data reaches the writer through io.Copy from a source without WriteTo that
+			// returns its last bytes together with io.EOF (an optional io.ReaderFrom of the
+			// writer would be used here)
+			src := mon.NewSource(run.Data)
+			src.Frag = "eofwith"
+			fr := prng.New(k.Seed, 3)
+			src.Next = func(max int) int { return fr.Range(1, 1+fr.Pick(300, 5000, 40000)) }
+			n, err := io.Copy(w, struct{ io.Reader }{src})
+			run.Calls++
+			if n != int64(len(run.Data)) || err != nil {
+				run.WriteErr = fmt.Sprintf("io.Copy of %d bytes into the writer returned (%d, %v)", len(run.Data), n, err)
+				return
+			}
+		}
 		pos := 0
 		for i, l := range k.partition(len(run.Data)) {
+			if k.Part == "iocopy" {
+				break
+			}
 			n, err := w.Write(run.Data[pos : pos+l])
 			run.Calls++
 			if (n != l || err != nil) && run.WriteErr == "" {
